@@ -48,9 +48,9 @@ theorem altIsRepetitionOf_isSome (st : Store T) {a b : Alt} (ha : AltOK st a) (h
       cases r with
       | false => exact ⟨false, by simp [hr]⟩
       | true =>
-        by_cases hl : (ma :: ra).length ≠ (mb :: rb).length
-        · exact ⟨false, by simp [hr, hl]⟩
+        by_cases hl : ra.length = rb.length
         · exact ⟨decide (ta = tb), by simp [hr, hl, hta, htb]⟩
+        · exact ⟨false, by simp [hr, hl]⟩
 
 theorem isCoupled_isSome (st : Store T) (data : List Alt) (h : ∀ a ∈ data, AltOK st a) :
     ∃ b, isCoupled st data = some b := by
